@@ -31,6 +31,7 @@ REQ = ("From RV Require Import Prelude.\nFrom Tensor Require Import Overlap.\n"
 THEOREMS = ["C09_clamp_resolves", "C09_index_range_is_python_slice", "C09_index_range_no_panic",
             "C09_slice_denotes", "C09_slice_ok_defined", "C09_slice_error", "C09_slice_release_mode",
             "C09_slice_copy_is_numpy", "C09_slice_copy_error", "C09_clip_dim_denotes",
+            "C09_append_denotes", "C09_append_error",
             "C09_index_axis_denotes", "C09_index_axis_error", "C09_slice_axis_denotes", "C09_slice_axis_error",
             "C09_split_denotes", "C09_split_error",
             "C09_permuted_denotes", "C09_permuted_error", "C09_transposed_denotes",
@@ -48,7 +49,7 @@ def classify(case):
 
 
 def main(ctx):
-    ctx.rule = ("seeded random chains of <= 6 operations (17 kinds) on views of an arange storage, rank <= 4, sizes <= 5: sources are "
+    ctx.rule = ("seeded random chains of <= 6 operations (18 kinds) on views of an arange storage, rank <= 4, sizes <= 5: sources are "
                 "contiguous, offset, stepped, permuted, broadcast (stride 0) or arbitrarily strided; one chain in four comes from the "
                 "malformed/extreme stream (out-of-range axes/indices/ranges, zero and i64-extreme steps, invalid permutations, bad "
                 "broadcast/reshape targets); plus the exhaustive SliceRange scope size<=5 x start,end in -7..7 (end also absent) x "
@@ -61,15 +62,6 @@ def main(ctx):
     ctx.assumptions += ["usize arithmetic on strides/offsets does not overflow (C06's obligation), except stride*step in slice_layout "
                         "which the model evaluates mod 2^64"]
     ctx.audit(GROUP, "tensor")
-    # this group only needs Overlap.vo of the `tensor` group; do not let unrelated work in
-    # progress there (other properties' proof files) break this check
-    orig_make = ctx.make
-
-    def make(group, targets=None, timeout=1800, clean=False):
-        if group == "tensor" and targets is None:
-            targets = ["Overlap.vo"]
-        return orig_make(group, targets, timeout, clean)
-    ctx.make = make
     failed = ctx.prove(GROUP, "Props_C09", THEOREMS)
     bindir = ctx.harness(GROUP, profile="release", bins=["c09"])
     replay = ctx.replay_inputs()
